@@ -91,8 +91,8 @@ class ProgWP(LinWP):
         return r
 
     def cw(self, sym, a, b, node):
-        if isinstance(b, AV) and isinstance(a, V) and sym in '+-' and 'ArrayWrapper' in type_str(node):
-            r = self.bin_cw(sym, a, b, node)       # scalar +- array: Eigen broadcasts the scalar (arrays only; the functor was checked)
+        if isinstance(b, AV) and isinstance(a, V) and sym in '+-/' and 'ArrayWrapper' in type_str(node):
+            r = self.bin_cw(sym, a, b, node)       # scalar +- / array: Eigen broadcasts the scalar (arrays only; the functor was checked)
             return type(b)(r.c, r.n, r.deps)
         if isinstance(a, AV) and isinstance(b, V) and sym in '+-' and 'ArrayWrapper' in type_str(node):
             r = self.bin_cw(sym, a, b, node)
